@@ -66,6 +66,14 @@ func genC07Case(t *rapid.T) C07Case {
 	s.SP = rapid.SampledFrom(candidates).Draw(t, "sp")
 	s.Prelude = genPrelude(t, spec, s.Host)
 	s.Noise = rapid.IntRange(0, 2).Draw(t, "noise") == 0
+	if rapid.IntRange(0, 5).Draw(t, "strangers") == 0 {
+		// a burst of requests from parties the storage does not know came first (3..8 of them, on any endpoint)
+		h := &History{SP: s.SP}
+		for i := rapid.IntRange(3, 8).Draw(t, "nstrangers"); i > 0; i-- {
+			h.Warmups = append(h.Warmups, rapid.SampledFrom([]string{"sso-unknown", "sso-unknown", "logout-unknown", "attrquery-unknown"}).Draw(t, "stranger"))
+		}
+		s.Hist = h
+	}
 	sp := spec.SPs[s.SP]
 	s.Style = genXMLStyle(t)
 	c.CData = rapid.IntRange(0, 4).Draw(t, "cdata") == 0
@@ -226,7 +234,7 @@ func c07Accepted(c C07Case) (bool, string, obs.HTTPReq) {
 	if c.SSO.Noise {
 		wspec = withNoise(wspec)
 	}
-	w := mustBuild(wspec)
+	w := buildWithHistory(wspec, c.SSO.Hist, c.SSO.Host)
 	if c.SSO.Noise {
 		runNoise(w, wspec)
 	}
